@@ -9,6 +9,7 @@ import HT.Model.JA3
 import HT.Model.Auth
 import HT.Model.Event
 import HT.Model.Path
+import HT.Model.Identity
 /-!
 Line-protocol driver: one case per input line, `<model> <args…>`; one output line
 per case.  Core Lean only (so it links as an executable).
@@ -32,6 +33,7 @@ def dispatch (line : String) : String :=
   | "auth" :: args => Auth.driver args
   | "ev" :: args => Ev.driver args
   | "path" :: args => Path.driver args
+  | "idtok" :: args => Id.driver args
   | _ => "bad-model"
 
 partial def loop (h : IO.FS.Stream) (out : IO.FS.Stream) : IO Unit := do
